@@ -265,6 +265,8 @@ impl<T: E> World<T> {
   /// state of every vector that is not mutably borrowed by a live iterator, plus monitors
   fn observe(&mut self) -> String {
     let mut parts = vec![];
+    // identities exposed by the vectors looked at so far: the same element in two vectors is in two places
+    let mut seen_all: Vec<u32> = vec![];
     for v in 0..self.vecs.len() {
       if !self.has(v) {
         continue;
@@ -321,12 +323,15 @@ impl<T: E> World<T> {
             if (id as usize) < elem::MAXID && id < lg().next && lg().status[id as usize] != elem::ST_LIVE {
               self.monitor(format!("dead_exposed:{}", id));
             }
-            if seen.contains(&id) {
+            if seen.contains(&id) || seen_all.contains(&id) {
               self.monitor(format!("dup_exposed:{}", id));
             }
           }
           seen.push(id);
           pays.push(x.pay());
+        }
+        if T::TRACKED {
+          seen_all.extend(seen.iter().copied());
         }
         idl = format!("[{}]", seen.iter().map(|x| x.to_string()).collect::<Vec<_>>().join(","));
         if self.shadow_ok {
